@@ -17,6 +17,39 @@ F_str_of = z3.Function("str_of", Val, smt.I)
 F_lower = z3.Function("str_lower", smt.I, smt.I)
 F_ip_of_str = z3.Function("ip_of_str", smt.I, smt.I)
 F_plen = z3.Function("plen", smt.I, smt.I)  # prefix length of a netmask (uninterpreted, in [0,32])
+# in_net(x, a, m): x lies in the network IPv4Network(f"{a}/{m}", strict=False), i.e. (x & m) == (a & m) -- kept
+# uninterpreted: nothing proved here depends on the bit-level definition
+F_in_net = z3.Function("in_net", smt.I, smt.I, smt.I, smt.B)
+
+
+MASKS = [(2**32 - 1) ^ (2**(32 - p) - 1) for p in range(33)]  # netmask of prefix length p
+
+
+def valid_mask_term(m):
+    return z3.Or(*[m == z3.IntVal(x) for x in MASKS])
+
+
+def in_net_term(st, x, a, m):
+    """in_net(x,a,m); in refutation mode its bit-level definition is revealed so that models replay natively."""
+    t = F_in_net(x, a, m)
+    if st.cfg.get("ground"):
+        # for a valid netmask of prefix length p:  (x & m) == (a & m)  <=>  x div 2^(32-p) == a div 2^(32-p)
+        d = z3.BoolVal(False)
+        for p_, mk in enumerate(MASKS):
+            c = 2 ** (32 - p_)
+            d = z3.If(m == z3.IntVal(mk), x / c == a / c, d)
+        st.assume(z3.Implies(valid_mask_term(m), t == d))
+    return t
+
+
+def plen_term(st, m):
+    t = F_plen(m)
+    if st.cfg.get("ground"):
+        d = z3.IntVal(0)
+        for p, x in enumerate(MASKS):
+            d = z3.If(m == z3.IntVal(x), z3.IntVal(p), d)
+        st.assume(z3.Implies(valid_mask_term(m), t == d))
+    return t
 
 
 def isinstance_pred(I: Interp, v, cls):
@@ -159,14 +192,19 @@ def model_ipv4network(I: Interp, args, kwargs, node):
     """IPv4Network(f"{ip}/{mask}", strict=False) -- the argument string is opaque, so the model takes the two values
     from the f-string's AST when the call site has that shape; otherwise an unconstrained network."""
     st = I.st
+    a0 = args[0] if args else None
+    if isinstance(a0, SV) and isinstance(a0.c, tuple) and a0.c[0] == "fstr" and len(a0.c[1]) == 3 and a0.c[1][1] == "/":
+        ip, mask = a0.c[1][0], a0.c[1][2]
+        if isinstance(ip, SV) and isinstance(mask, SV) and T.strip_opt(ip.ty).k == "ip" and T.strip_opt(mask.ty).k == "ip":
+            return net_from_ip_mask(I, ip, mask)
     r = st.new_ref(-21)
     net = SV(smt.mk_ref(r), T.EXT("IPv4Network"))
-    for a in ("network_address", "broadcast_address", "netmask"):
-        v = st.fresh_val("net_" + a, T.IP)
-        st.setf(r, "net:" + a, v.t)
+    st.heap["f:net:address"] = z3.Store(st.arr("f:net:address"), r, st.fresh_val("net_addr", T.IP).t)
+    st.heap["f:net:netmask"] = z3.Store(st.arr("f:net:netmask"), r, st.fresh_val("net_mask", T.IP).t)
     p = st.fresh("net_plen", smt.I)
     st.assume(z3.And(p >= 0, p <= 32))
-    st.setf(r, "net:prefixlen", smt.mk_int(p))
+    st.heap["f:net:prefixlen"] = z3.Store(st.arr("f:net:prefixlen"), r, smt.mk_int(p))
+    st.log.append("IPv4Network(<opaque string>) = unconstrained network")
     return net
 
 
@@ -175,12 +213,12 @@ def net_from_ip_mask(I: Interp, ip: SV, mask: SV) -> SV:
     st = I.st
     r = st.new_ref(-21)
     a, m = smt.ipval(ip.t), smt.ipval(mask.t)
-    st.setf(r, "net:network_address", smt.mk_ip(smt.and_int(a, m)))
-    st.setf(r, "net:netmask", smt.mk_ip(m))
-    st.setf(r, "net:broadcast_address", smt.mk_ip(smt.or_int(a, smt.andnot_int(z3.IntVal(2**32 - 1), m))))
-    st.setf(r, "net:prefixlen", smt.mk_int(F_plen(m)))
+    st.heap["f:net:address"] = z3.Store(st.arr("f:net:address"), r, ip.t)
+    st.heap["f:net:netmask"] = z3.Store(st.arr("f:net:netmask"), r, smt.mk_ip(m))
+    st.heap["f:net:prefixlen"] = z3.Store(st.arr("f:net:prefixlen"), r, smt.mk_int(plen_term(st, m)))
+    st.heap["f:net:exact"] = z3.Store(st.arr("f:net:exact"), r, smt.mk_bool(True))
     st.assume(z3.And(F_plen(m) >= 0, F_plen(m) <= 32))
-    st.log.append("IPv4Network(f'{ip}/{mask}', strict=False) modelled as (ip&mask, mask, plen(mask))")
+    st.log.append("IPv4Network(f'{ip}/{mask}', strict=False) modelled as (ip&mask, mask, plen(mask)); `x in net` as uninterpreted in_net(x, ip, mask)")
     return SV(smt.mk_ref(r), T.EXT("IPv4Network"))
 
 
